@@ -61,3 +61,45 @@ Theorem C04_aggregates_complete :
     (In (u, a) (rp_aggs d') <-> In a l).
 Proof. exact c04_aggregates_complete. Qed.
 Print Assumptions C04_aggregates_complete.
+
+(* ------------------------------------------------------------------------------------------------------------------
+   Under interleaving (Proofs/C12a.v, over Model/ConcAll.v: every request kind as a thread, one step per top-level transaction,
+   any number of threads, any schedule, any start state).  hv d = the heavy tables: providers, inventories, allocations,
+   classes, traits, aggregates, aggregate and trait associations - everything but consumers / projects / users / consumer types.
+   before_step / after_step = the states around the k-th step of the schedule. *)
+From PV Require Import Model.ConcAll Proofs.C10c Proofs.C06a Proofs.C12a.
+
+(* a request answered >= 300 has changed no heavy table at any point: each of its transactions was rolled back or touched only
+   consumers (C12_stray_is_owed: what it created it removes again, unless another request gave it allocations) and projects /
+   users / consumer types (never removed: C04_rejected_leaves_project) *)
+Theorem C04_rejected_no_trace_all_schedules : forall cf reqs s d k i t r,
+  nth_error s k = Some i ->
+  nth_error (fst (a_exec cf reqs s d)) i = Some t -> a_resp t = Some r -> 300 <= status r ->
+  hv (snd (after_step cf reqs s d k)) = hv (snd (before_step cf reqs s d k)).
+Proof. exact c04a_rejected_no_trace. Qed.
+Print Assumptions C04_rejected_no_trace_all_schedules.
+
+(* all-or-nothing: at most one transaction of a request changes a heavy table, and a request with such a transaction is
+   answered with success *)
+Theorem C04_one_commit : forall cf reqs s d k1 k2 i,
+  (k1 < k2)%nat -> nth_error s k1 = Some i -> nth_error s k2 = Some i ->
+  hv (snd (after_step cf reqs s d k1)) <> hv (snd (before_step cf reqs s d k1)) ->
+  hv (snd (after_step cf reqs s d k2)) = hv (snd (before_step cf reqs s d k2)).
+Proof. exact c04a_one_commit. Qed.
+Theorem C04_commit_is_success : forall cf reqs s d k i t r,
+  nth_error s k = Some i ->
+  hv (snd (after_step cf reqs s d k)) <> hv (snd (before_step cf reqs s d k)) ->
+  nth_error (fst (a_exec cf reqs s d)) i = Some t -> a_resp t = Some r -> status r < 300.
+Proof. exact c04a_commit_is_success. Qed.
+Print Assumptions C04_one_commit.
+Print Assumptions C04_commit_is_success.
+
+(* "exactly one" is false: DELETE /allocations/{c} overtaken by a PUT answers 204 without having changed anything *)
+Theorem C04_delete_without_effect :
+  cz_run [AllocDelete 2; cy_pB] [0; 0; 1; 1; 1; 1; 0; 0; 0]%nat = ([204; 204], [], [(3, 1); (3, 4); (2, 2)], [1]).
+Proof. exact c04a_delete_without_effect. Qed.
+Theorem C04_rejected_leaves_project :
+  cz_run [cz_rej] [0; 0; 0; 0; 0; 0; 0]%nat = ([409], [], [(2, 2); (3, 1); (3, 4)], [1; 77]) /\ projects cx_d0 = [1].
+Proof. exact c04a_rejected_leaves_project. Qed.
+Print Assumptions C04_delete_without_effect.
+Print Assumptions C04_rejected_leaves_project.
